@@ -98,6 +98,8 @@ static void wait_hook () {
       struct sockaddr_in sin; memset (&sin, 0, sizeof sin);
       sin.sin_family = AF_INET; sin.sin_port = htons ((unsigned short) port); sin.sin_addr.s_addr = htonl (INADDR_LOOPBACK);
       int one = 1; setsockopt (fd, IPPROTO_TCP, TCP_NODELAY, &one, sizeof one);
+      // sockets still open when the case ends are reset, not lingered: thousands of cases must not exhaust the port range with TIME_WAIT
+      struct linger lg = {1, 0}; setsockopt (fd, SOL_SOCKET, SO_LINGER, &lg, sizeof lg);
       if (port < 0 || connect (fd, (struct sockaddr *) &sin, sizeof sin) < 0) {
         rec_begin_x (i, "connfail"); rec_kv_int_x ("errno", errno); rec_end_x (); close (fd);
       } else { conns[a[1]] = fd; rec_begin_x (i, "ok"); rec_kv_int_x ("port", port); rec_end_x (); }
@@ -125,7 +127,10 @@ static void wait_hook () {
     }
     else if (c == "close") {
       std::map<std::string, int>::iterator it = conns.find (a[1]);
-      if (it != conns.end ()) { close (it->second); conns.erase (it); }
+      if (it != conns.end ()) {
+        if (!(a.size () > 2 && a[2] == "rst")) { struct linger lg = {0, 0}; setsockopt (it->second, SOL_SOCKET, SO_LINGER, &lg, sizeof lg); } // orderly FIN unless "rst"
+        close (it->second); conns.erase (it);
+      }
       rec_begin_x (i, "ok"); rec_end_x ();
     }
     else if (c == "shutwr") {
